@@ -164,7 +164,7 @@ fn history<Q: Rep>(tc0: TC<Q>, g: &mut SplitMix64, t_total: usize, sf: usize, mf
 
 fn mode_histories(seed: u64, thorough: bool) {
     let mut g = SplitMix64::new(seed ^ 0xc05);
-    let ladders = if thorough { 90 } else { 24 };
+    let ladders = if thorough { 700 } else { 42 };
     for l in 0..ladders {
         let n = 2 + (l % 7) as usize;
         let kind = g.below(6);
@@ -194,10 +194,10 @@ fn mode_histories(seed: u64, thorough: bool) {
         let t_total = 4 + g.below(if thorough { 24 } else { 12 }) as usize;
         let sf = 1 + g.below(5) as usize;
         let mf = 1 + g.below(5) as usize;
-        history(tc, &mut g, t_total, sf, mf, if thorough { 2 } else { 3 });
+        history(tc, &mut g, t_total, sf, mf, 2);
     }
     // generic replicas (beta ladders; the container refuses anything else)
-    let gl = if thorough { 20 } else { 6 };
+    let gl = if thorough { 140 } else { 14 };
     for l in 0..gl {
         let n = 2 + (l % 7) as usize;
         let nvars = 2 + g.below(2) as usize;
